@@ -726,6 +726,9 @@ func (s *sender) handleRcvdSegment(seg *segment) {
 
 			if datalen > ackLeft {
 				seg.data.TrimFront(int(ackLeft))
+				// The remaining data now starts at the first unacknowledged
+				// sequence number.
+				seg.sequenceNumber.UpdateForward(ackLeft)
 				break
 			}
 
